@@ -712,9 +712,30 @@ def stmt_bounds(s, pos, fn):
     return a, b
 
 
+SET_T = r"(?:std::collections::|collections::)?(?:BTreeSet|HashSet)\b"
+
+
+def set_names(s):
+    """names declared in this file with a set type (fields, parameters, typed lets, `let x = …Set::new()`)"""
+    names = set(re.findall(r"\b([A-Za-z_]\w*)\s*:\s*&?\s*(?:mut\s+)?" + SET_T + r"\s*<", s))
+    names |= set(re.findall(r"\blet\s+(?:mut\s+)?([A-Za-z_]\w*)\s*(?::[^=;]*)?=\s*" + SET_T + r"\s*(?:::<[^;]*?>)?\s*::", s))
+    return sorted(names)
+
+
+MAP_T = r"(?:std::collections::|collections::)?(?:BTreeMap|HashMap)\b"
+
+
+def map_names(s):
+    names = set(re.findall(r"\b([A-Za-z_]\w*)\s*:\s*&?\s*(?:mut\s+)?" + MAP_T + r"\s*<", s))
+    names |= set(re.findall(r"\blet\s+(?:mut\s+)?([A-Za-z_]\w*)\s*(?::[^=;]*)?=\s*" + MAP_T + r"\s*(?:::<[^;]*?>)?\s*::", s))
+    return sorted(names)
+
+
 def find_sites(cen, rel, s, fns):
     sites = []
     seen_pos = set()
+    setnames = set_names(s)
+    mapnames = map_names(s)
 
     def add(pos, how, recv, kind, body=""):
         f_in = inner_fn(fns, pos)
@@ -731,7 +752,7 @@ def find_sites(cen, rel, s, fns):
         line = s.count("\n", 0, pos) + 1
         sites.append({"file": rel, "fn": f_out.ident if f_out else "<top>", "how": how, "recv": re.sub(r"\s+", "", recv),
                       "stmt": stmt, "line": line, "resolved": kind != "name-only", "pos": pos,
-                      "after": re.sub(r"\s+", " ", s[b:b + 400]), "body": re.sub(r"\s+", "", body)[:600],
+                      "after": re.sub(r"\s+", " ", s[b:b + 400]), "setnames": setnames, "mapnames": mapnames, "body": re.sub(r"\s+", "", body)[:600],
                       "fntext": re.sub(r"\s+", "", s[f_out.start:f_out.end])[:6000] if (f_out and body) else ""})
 
     for m in re.finditer(r"\.\s*(%s)\s*(?:::\s*<[^>]*>\s*)?\(" % "|".join(ITER_METHODS), s):
@@ -850,21 +871,56 @@ def census_uncached(repo):
 AUTO_SORT = re.compile(r"^let(?:mut)?(\w+)(?::[^=]+)?=")
 
 
+ADAPTORS = r"(?:\.(?:map|filter|filter_map|flat_map|copied|cloned|flatten|by_ref)\((?:[^()]|\((?:[^()]|\([^()]*\))*\))*\))*"
+INJ = r"(?:\*{0}|{0}|{0}\.clone\(\)|{0}\.to_string\(\)|{0}\.to_owned\(\))"
+
+
 def auto_class(st):
-    """`let mut v = <hash>.keys()...collect(); v.sort..()` needs no table entry"""
-    # `for x in <hash> { [if cond {] set.insert(expr); [}] }` with `set` a BTreeSet/HashSet of the same fn: a union of
-    # sets, the same in any order
+    """classes that can be read off the statement itself; they need no table entry, and a harmless rewrite of such a
+    statement (new fingerprint) is re-classified without anybody touching the table"""
+    stmt = st["stmt"]
     body = st.get("body", "")
-    if st["stmt"].startswith("for") and body:
-        mm = re.fullmatch(r"(?:if[^{};]*\{)?(\w+)\.insert\([^;{}]*\);\}?", body)
-        if mm and re.search(r"let(?:mut)?%s(?::[^=;]*)?=(?:std::collections::)?(?:BTreeSet|HashSet)(?:::<[^;]*?>)?::new\(\)" % re.escape(mm.group(1)),
-                            st.get("fntext", "")):
-            return "order-free", "auto: the loop only inserts into the set `%s`" % mm.group(1)
-    m = AUTO_SORT.match(st["stmt"])
-    if m and "collect" in st["stmt"]:
+    sets = set(st.get("setnames", []))
+    is_for = stmt.startswith("for")
+    if is_for and body:
+        # for x in <hash> { [if cond {] set.insert(expr); [}] }   -- union of sets
+        mm = re.fullmatch(r"(?:if[^{};]*\{)?([\w.]+)\.insert\([^;{}]*\);\}?", body)
+        if mm:
+            tgt = mm.group(1).split(".")[-1]
+            if tgt in sets or re.search(r"let(?:mut)?%s(?::[^=;]*)?=(?:std::collections::)?(?:BTreeSet|HashSet)(?:::<[^;]*?>)?::new\(\)"
+                                        % re.escape(tgt), st.get("fntext", "")):
+                return "order-free", "auto: the loop only inserts into the set `%s`" % tgt
+        # for (k,v) in <map> { m.insert(k / *k / k.clone() / k.to_string() / k.to_owned(), expr); }  -- keys stay distinct
+        pm = re.match(r"for\((\w+),(?:mut)?\w+\)in", stmt)
+        if pm:
+            k = re.escape(pm.group(1))
+            im = re.fullmatch(r"(?:if[^{};]*\{)?([\w.]+)\.insert\(%s,[^;{}]*\);\}?" % INJ.format(k), body)
+            if im and im.group(1).split(".")[-1] in set(st.get("mapnames", [])):
+                return "order-free", "auto: the loop copies entries into a map under their own (distinct) keys"
+        # for x in <hash> { [if cond {] n += 1; [}] }   -- a count
+        if re.fullmatch(r"(?:if[^{};]*\{)?[\w.]+\+=1;\}?", body):
+            return "order-free", "auto: the loop only counts"
+    # <hash>.iter()…adaptors… .count() / .any(..) / .all(..) / .min() / .max() / .len() / .sum::<integer>()
+    key = "%s.%s(" % (st["recv"], st["how"])
+    p = stmt.find(key)
+    if p >= 0 and not is_for:
+        q = stmt.find(")", p + len(key) - 1)
+        tail = stmt[q + 1:] if q >= 0 else ""
+        m = re.match(ADAPTORS + r"\.(count|any|all|min|max|len|is_empty|sum::<[ui](?:8|16|32|64|128|size)>)\(", tail)
+        if m and st["how"] in ("iter", "keys", "values", "into_iter", "into_keys", "into_values", "iter_mut", "values_mut"):
+            return "order-free", "auto: reduced with `%s` (count/any/all/min/max/integer sum)" % m.group(1)
+        # … .collect() into a set: `.collect::<…Set<..>>()`, `let x: …Set<..> = …collect()`, `x = …collect()` with x a set
+        if re.search(r"\.collect::<" + SET_T.replace("\\b", "") + r"<", tail) or \
+           (re.match(r"let(?:mut)?\w+:" + SET_T.replace("\\b", "") + r"<", stmt) and tail.endswith(".collect()")):
+            return "order-free", "auto: collected into a set"
+        am = re.match(r"(?:let(?:mut)?)?([\w.]+)=", stmt)
+        if am and tail.endswith(".collect()") and am.group(1).split(".")[-1] in sets and re.fullmatch(ADAPTORS + r"\.collect\(\)", tail):
+            return "order-free", "auto: collected into the set `%s`" % am.group(1).split(".")[-1]
+    m = AUTO_SORT.match(stmt)
+    if m and "collect" in stmt:
         name = m.group(1)
         if re.search(r"\b%s\s*\.\s*sort(_unstable)?(_by|_by_key)?\s*\(" % re.escape(name), st["after"][:200]):
-            return "sorted-before-use", "auto: collected into `%s` and sorted in the next statement" % name
+            return "sorted-before-use", "auto: collected into `%s` and sorted right after" % name
     return None
 
 
